@@ -17,6 +17,11 @@
 //      U ThenInline, by this observer           V Then(executor), by this observer
 //      W ThenInline, callback owns a copy, the outer source is fulfilled by the fulfilling fiber AFTER the shared Set
 //      Y the same, fulfilled by the fulfilling fiber BEFORE the shared Set   (leftovers: by the main fiber at the end)
+//   A B L D  a combinator over this copy and an auxiliary SharedFuture of the same type (its own shared state `aux`;
+//      operations on aux are not traced), the combinator's output detached with a recording callback.  ORACLE ONLY: these
+//      plans are not replayed through the model (the combinator consumes through SharedCore::Retire).
+//      A WhenAny(f, aux), aux fulfilled by the fulfilling fiber after the shared Set     B WhenAny(aux, f), aux never
+//      L WhenAll(f, aux), aux fulfilled by the fulfilling fiber after the shared Set     D WhenAny(f, f2), f2 a copy of f
 #include <deque>
 
 #include "vrt_all.hpp"
@@ -207,8 +212,16 @@ struct CbRec {
   bool before_set = false;
 };
 
+struct CombRec {
+  std::string name;
+  char op = 0;
+  int count = 0;
+  long code = -1;
+};
+
 struct Run {
   std::deque<CbRec> cbs;  // stable addresses
+  std::deque<CombRec> combs;
   int gets = 0;
   CbRec& NewCb(const std::string& name) {
     cbs.push_back(CbRec{name});
@@ -266,6 +279,15 @@ yaclib::Future<> Awaiter(const SF& f, CbRec* rec, std::string src, std::string h
 struct Outer {
   std::deque<yaclib::Promise<int, Err>> early;  // by the fulfilling fiber before the shared Set
   std::deque<yaclib::Promise<int, Err>> late;   // by the fulfilling fiber after it
+  std::deque<SP> aux_late;                      // auxiliary shared states fulfilled by the fulfilling fiber after it
+  std::deque<SP> aux_never;                     // ... and never (dropped when the scenario is over)
+  static void SetAux(std::deque<SP>& q) {
+    while (!q.empty()) {
+      auto pr = std::move(q.front());
+      q.pop_front();
+      std::move(pr).Set(Val{3});
+    }
+  }
   static void SetAll(std::deque<yaclib::Promise<int, Err>>& q) {
     while (!q.empty()) {
       auto pr = std::move(q.front());
@@ -477,6 +499,48 @@ void Observer(int oi, SF f, const std::string& ops, Run& run, CountingInline& ex
         }
         break;
       }
+      case 'A':
+      case 'B':
+      case 'L':
+      case 'D': {
+        run.combs.push_back(CombRec{"w" + std::to_string(oi) + "_" + std::to_string(n++), op});
+        auto& rec = run.combs.back();
+        auto [aux, auxp] = yaclib::MakeSharedContract<Val, Err>();
+        vrt::Event(std::string("when ") + op + " " + h + " " + rec.name);
+        if (op == 'L') {
+          auto out = yaclib::WhenAll(f, aux);
+          std::move(out).DetachInline([&rec](yaclib::Result<std::vector<Val>, Err>&& r) {
+            ++rec.count;
+            const auto& cr = r;
+            rec.code = (cr.State() == yaclib::ResultState::Value && !cr.Value().empty()) ? cr.Value().front().CodeOf() : -2;
+            vrt::Event("whencb " + rec.name + " " + std::to_string(rec.code));
+          });
+        } else {
+          yaclib::Future<Val, Err> out;
+          if (op == 'A') {
+            out = yaclib::WhenAny(f, aux);
+          } else if (op == 'B') {
+            out = yaclib::WhenAny(aux, f);
+          } else {
+            vrt::Event("copy " + h + " " + h + "w" + std::to_string(n));
+            SF f2 = f;
+            out = yaclib::WhenAny(f, f2);
+            vrt::Event("destroy " + h + "w" + std::to_string(n++));
+          }
+          std::move(out).DetachInline([&rec](R&& r) {
+            ++rec.count;
+            rec.code = Code(r);
+            vrt::Event("whencb " + rec.name + " " + std::to_string(rec.code));
+          });
+        }
+        vrt::Event("whendone");
+        if (op == 'A' || op == 'L') {
+          outer.aux_late.push_back(std::move(auxp));
+        } else {
+          outer.aux_never.push_back(std::move(auxp));
+        }
+        break;
+      }
       case 'c': {
         std::string name = h + "c" + std::to_string(copies.size());
         vrt::Event("copy " + h + " " + name);
@@ -606,6 +670,7 @@ void RunPlan(const Plan& plan) {
     }
     vrt::Event("setdone");
     Outer::SetAll(outer.late);
+    Outer::SetAux(outer.aux_late);
   });
   std::vector<yaclib_std::thread> ts;
   ts.reserve(plan.obs.size());
@@ -621,8 +686,20 @@ void RunPlan(const Plan& plan) {
   }
   Outer::SetAll(outer.early);  // whatever was queued after the fulfilling fiber had passed
   Outer::SetAll(outer.late);
+  Outer::SetAux(outer.aux_late);
   for (auto& d : deferred) {
     d.Drain();
+  }
+  // ---- combinators are C09's / C10's subject; here only: the output is set at most once, and exactly once with the
+  // value of this shared state where nothing else can have produced it
+  for (auto& rec : run.combs) {
+    if (rec.count > 1) {
+      vrt::Fail("the output of combinator " + rec.name + " was set " + std::to_string(rec.count) + " times");
+    } else if ((rec.op == 'B' || rec.op == 'D') && U.expected == 12 && (rec.count != 1 || rec.code != U.expected)) {
+      // (a value; with a failure WhenAny<LastFail> keeps waiting for the auxiliary input, which is C10's business)
+      vrt::Fail("WhenAny over this shared state (" + rec.name + ") produced " + std::to_string(rec.code) + " (" +
+                std::to_string(rec.count) + " times) but " + std::to_string(U.expected) + " was set");
+    }
   }
   // ---- oracle (property text): every attached callback/awaiter fired exactly once, after Set, with the value
   for (auto& rec : run.cbs) {
